@@ -102,10 +102,50 @@ class FullMain:
             raise AnalysisError("main() does not call parse_args()")
         self.map = {pa: ARGS}
         self.events = I.events
+        # "first entry only" directory walks: a loop over os.walk() that unconditionally ends in its first iteration
+        # (break / return at the end of the body).  Its index is 0, and a value returned from inside it is that of the
+        # first entry (an unreadable directory yields no entry at all; then nothing is listed either way).
+        self.first_only = {}
+        for lid, L in I.loops.items():
+            it = subst(L.iter, self.map) if L.iter is not None else None
+            if isinstance(it, Op) and it.op == "call:os.walk" and any(b == TRUE for b in L.stops):
+                self.first_only[lid] = L
+                self.map[L.idx] = Const(0)
         self.facts = [(self.norm(p), self.norm(q)) for p, q in I.facts]
 
     def norm(self, t):
-        return subst(t, self.map)
+        t = subst(t, self.map)
+        if not self.first_only or t is None:
+            return t
+        t = self._norm_first_only(t)
+        # an element of a fully known tuple/list (e.g. the (root, files) pair a helper returned)
+        for _ in range(8):
+            m = {}
+            for x in walk(t):
+                if isinstance(x, Op) and x.op == "getitem" and isinstance(x.args[0], Ref) and isinstance(x.args[1], Const) \
+                        and isinstance(x.args[1].v, int):
+                    o = self.I.heap.get(x.args[0].oid)
+                    items = getattr(o, "items", None)
+                    if items is not None and hasattr(o, "concrete") and o.concrete() and -len(items) <= x.args[1].v < len(items):
+                        m[x] = self._norm_first_only(subst(items[x.args[1].v][1], self.map))
+            if not m:
+                break
+            t = subst(t, m)
+        return t
+
+    def _norm_first_only(self, t):
+        for _ in range(8):
+            m = {}
+            for x in walk(t):
+                if isinstance(x, Op) and x.op in ("exists", "loopret") and isinstance(x.args[0], Const) and x.args[0].v in self.first_only:
+                    inner = x.args[1]
+                    if not any(isinstance(y, Op) and y is not x and y.op in ("exists", "loopret") and isinstance(y.args[0], Const)
+                               and y.args[0].v in self.first_only for y in walk(inner)):
+                        m[x] = inner
+            if not m:
+                break
+            t = subst(t, m)
+        return t
 
     def arg(self, dest):
         return Op("attr:" + dest, ARGS)
